@@ -36,4 +36,4 @@ Definition long_ok : bool :=
   forallb (fun w => match ref_vector 3 w, ch_vector 3 w with Some a, Some b => k8v_eqb a b | _, _ => false end) long3.
 Theorem chform_small_ok_partial :
   small_ok 1 gens1 4 = true /\ small_ok 2 gens2 3 = true /\ small_ok 3 gens3 2 = true /\ long_ok = true.
-Proof. repeat split; vm_compute; reflexivity. Qed.
+Proof. split; [|split; [|split]]; vm_compute; reflexivity. Qed.
